@@ -68,6 +68,19 @@ TAssignStr == /\ Is("AssignStr") /\ Step /\ UNCHANGED vars
                                     /\ after[1] = toks[1] /\ \E i \in 2..Ev.ntok : after[2] = toks[i]
                     /\ Ev.ntok < 2 => Ev.threw
                     /\ Ev.ntok = 2 => (Ev.threw = ~InDomain([p EXCEPT !.vals = toks]))
+\* 64-bit integers beyond 2^53 (no double holds them) assigned to integer / integer-pair parameters, by value and as decimal strings: a value is
+\* three 21-bit words of v + 2^62, compared lexicographically. Accepted iff inside the domain (with the ordering constraint of a pair), then read
+\* back EXACTLY as assigned; rejected = throws and keeps the previous value.
+WLT(a, b) == \/ a[1] < b[1] \/ (a[1] = b[1] /\ a[2] < b[2]) \/ (a[1] = b[1] /\ a[2] = b[2] /\ a[3] < b[3])
+WLE(a, b) == a = b \/ WLT(a, b)
+WCmp(le, a, b) == IF le THEN WLE(a, b) ELSE WLT(a, b)
+WInDomain(ev, vs) == /\ WCmp(ev.minLE, ev.lo, vs[1]) /\ WCmp(ev.maxLE, vs[Len(vs)], ev.hi)
+                     /\ (Len(vs) = 2 => WCmp(ev.valLE, vs[1], vs[2]))
+TWideInt == /\ Is("WideInt") /\ Step /\ UNCHANGED vars
+            /\ Len(Ev.given) = (IF Ev.pair THEN 2 ELSE 1) /\ Len(Ev.after) = Len(Ev.given) /\ Len(Ev.before) = Len(Ev.given)
+            /\ WInDomain(Ev, Ev.before)
+            /\ Ev.threw = ~WInDomain(Ev, Ev.given)
+            /\ Ev.after = (IF Ev.threw THEN Ev.before ELSE Ev.given)
 \* a configurable object of the driver's own: Create / Register of Configurable.tla (a duplicate name or an out-of-domain default throws and
 \* leaves the object unchanged: `same` = parameters() compares equal to before, `n` = number of parameters afterwards)
 TCreate == Is("Create") /\ Step /\ Create(Ev.obj)
@@ -99,7 +112,7 @@ TConfig == /\ Is("Config") /\ Step /\ Ev.obj \in DOMAIN objs
 
 TraceInit == l = 1 /\ Init
 TraceNext == TEnumAll \/ TReset \/ TGet \/ TGetUnknown \/ TParam \/ TLookup \/ TClone \/ TAssignOn \/ TReadOn
-             \/ TFactory \/ TConstruct \/ TAssignStr \/ TCreate \/ TRegister \/ TConfig
+             \/ TFactory \/ TConstruct \/ TAssignStr \/ TWideInt \/ TCreate \/ TRegister \/ TConfig
 Accepted == LET d == TLCGet("stats").diameter IN
             IF d - 1 = Len(TraceLog) THEN TRUE ELSE PrintT(<<"REJECTED_AT", d>>) /\ FALSE
 ========================================================================================
